@@ -31,6 +31,13 @@ pub const ORIG_CLASSES: &[&str] = &[
     "gen$erated.app.Main$$Lambda0",
     "a$b.c.D$E",
     "$.$",
+    // multi-byte characters before / after a `$` in the last segment (character index vs byte offset)
+    "com.example.Größe$Inner",
+    "org.other.Ünit$1",
+    "日本.語$内",
+    "p.\u{1D49C}x$y",
+    "é$",
+    "q.$é$x",
 ];
 pub const OBF_METHODS: &[&str] = &["a", "b", "m", "<init>", "c", "ab", "a$", "k", "onClick", "\u{1D49C}", "\u{FF21}"];
 pub const ORIG_METHODS: &[&str] = &[
